@@ -591,6 +591,7 @@ func (s *vShape) add(k, v string) { s.toks = append(s.toks, k+"="+vEnc(strings.T
 func vC10DataShape(s *vShape, p string, data json.RawMessage) {
 	s.add(p+".data", b01(len(data) > 0))
 	s.add(p+".dvalid", b01(json.Valid(data)))
+	vC10ServerDataShape(s, p, data)
 	var d MessageClientMessageData
 	if err := json.Unmarshal(data, &d); err != nil {
 		s.add(p+".dj", "bad")
@@ -625,6 +626,22 @@ func vC10DataShape(s *vShape, p string, data json.RawMessage) {
 	s.add(p+".dsdp", sdp)
 }
 
+// vC10ServerDataShape: the same bytes as the recipient's side decodes them again
+// (MessageServerMessageData: IsChatRefresh, filterMessage).  Only non-default values are written.
+func vC10ServerDataShape(s *vShape, p string, data json.RawMessage) {
+	var d MessageServerMessageData
+	if len(data) == 0 || json.Unmarshal(data, &d) != nil {
+		return
+	}
+	s.add(p+".sdj", "ok")
+	if d.Type != "" {
+		s.add(p+".sdtype", d.Type)
+	}
+	if d.Chat != nil {
+		s.add(p+".sdchat", b01(d.Chat.Refresh))
+	}
+}
+
 func vC10MsgShape(s *vShape, p string, m *MessageClientMessage) {
 	s.add(p+".rtype", m.Recipient.Type)
 	s.add(p+".rsid", vC10SidClass(m.Recipient.SessionId))
@@ -644,8 +661,15 @@ func vC10MsgShape(s *vShape, p string, m *MessageClientMessage) {
 // vC10Shape decodes the template with the real decoder and flattens what the
 // model needs.  Returns ok=false if the document cannot be classified
 // unambiguously (the generator then drops it).
-func vC10Shape(template string, pad int, binary bool) (toks []string, ok bool) {
+func vC10Shape(template string, pad int, binary bool, noroom bool) (toks []string, ok bool) {
 	s := &vShape{}
+	// in a world whose bystander is in no room `vroom` is a room like any other
+	vC10RoomClass := func(id string) string {
+		if c := vC10RoomClass(id); !noroom || c != "by" {
+			return c
+		}
+		return "o:" + id
+	}
 	// for a padded document `pad` is the total size of the frame that will be sent
 	// (the padding is computed when the placeholders have been substituted)
 	size := len(template)
@@ -871,7 +895,11 @@ func vC10Shape(template string, pad int, binary bool) (toks []string, ok bool) {
 // ---------- generation ----------
 
 func vC10MsgOp(template string, pad int, binary bool) (string, bool) {
-	toks, ok := vC10Shape(template, pad, binary)
+	return vC10MsgOpW(template, pad, binary, false)
+}
+
+func vC10MsgOpW(template string, pad int, binary bool, noroom bool) (string, bool) {
+	toks, ok := vC10Shape(template, pad, binary, noroom)
 	if !ok {
 		return "", false
 	}
@@ -910,7 +938,7 @@ func vC10GenDoc(r *vRand) (string, int, bool) {
 }
 
 // vC10GenFromDocs builds cases from explicit documents (one JSON object per
-// line: {"mcu":0,"states":[["dialout",["<doc>", ...]], ...]}); used to write
+// line: {"mcu":0,"by":"hc","states":[["dialout",["<doc>", "op:by drop", ...]], ...]}); used to write
 // corpus cases and for targeted probes.
 func vC10GenFromDocs(path string) []vCase {
 	data, err := os.ReadFile(path)
@@ -924,16 +952,26 @@ func vC10GenFromDocs(path string) []vCase {
 		}
 		var spec struct {
 			Mcu    int             `json:"mcu"`
+			By     *string         `json:"by"`
 			States [][]interface{} `json:"states"`
 		}
 		if err := json.Unmarshal([]byte(line), &spec); err != nil {
 			panic(err)
 		}
 		ops := []string{"world mcu=" + strconv.Itoa(spec.Mcu)}
+		noroom := false
+		if spec.By != nil {
+			ops[0] += " by=" + *spec.By
+			noroom = strings.Contains(*spec.By, "n")
+		}
 		for _, st := range spec.States {
 			ops = append(ops, "state "+st[0].(string))
 			for _, d := range st[1].([]interface{}) {
 				doc, pad, binary := d.(string), 0, false
+				if strings.HasPrefix(doc, "op:") {
+					ops = append(ops, doc[3:])
+					continue
+				}
 				if strings.HasPrefix(doc, "bin:") {
 					doc, binary = doc[4:], true
 				}
@@ -950,7 +988,7 @@ func vC10GenFromDocs(path string) []vCase {
 						doc = doc[j+2:]
 					}
 				}
-				if op, ok := vC10MsgOp(doc, pad, binary); ok {
+				if op, ok := vC10MsgOpW(doc, pad, binary, noroom); ok {
 					ops = append(ops, op)
 				} else {
 					panic("ambiguous document: " + doc)
@@ -969,6 +1007,12 @@ func vC10Gen(e *vEnv, r *vRand) []vCase {
 	if os.Getenv("VERIF_C10_ONLY") == "media" {
 		// development aid: only the cases with the Janus client
 		return vC10GenMedia(e, newVRand(uint64(e.seed)*0x9e3779b97f4a7c15+0xc10), e.scale(30, 150))
+	}
+	switch os.Getenv("VERIF_C10_ONLY") {
+	case "rcpt":
+		return vC10GenRcpt(e, newVRand(uint64(e.seed)*0x9e3779b97f4a7c15+0xc10c), e.scale(40, 150))
+	case "remote":
+		return vC10GenRemote(e, newVRand(uint64(e.seed)*0x9e3779b97f4a7c15+0xc10d), e.scale(15, 40))
 	}
 	var cases []vCase
 	ncases := e.scale(600, 3000)
@@ -1007,6 +1051,10 @@ func vC10Gen(e *vEnv, r *vRand) []vCase {
 	}
 	// the media code behind the handlers (own random stream: the cases above stay what they were)
 	cases = append(cases, vC10GenMedia(e, newVRand(uint64(e.seed)*0x9e3779b97f4a7c15+0xc10), e.scale(30, 150))...)
+	// the recipient's side (bystander detached / resumed, in no room, in the call, with hide-displaynames)
+	cases = append(cases, vC10GenRcpt(e, newVRand(uint64(e.seed)*0x9e3779b97f4a7c15+0xc10c), e.scale(40, 150))...)
+	// a sender that is not a websocket of this hub
+	cases = append(cases, vC10GenRemote(e, newVRand(uint64(e.seed)*0x9e3779b97f4a7c15+0xc10d), e.scale(15, 40))...)
 	return cases
 }
 
@@ -1075,7 +1123,7 @@ func (x *vC10Exec) ensureWorld(t *testing.T) error {
 	if x.w != nil {
 		return nil
 	}
-	w, err := vC10NewWorld(t, 0)
+	w, err := vC10NewWorld(t, 0, "")
 	if err != nil {
 		return err
 	}
@@ -1098,7 +1146,11 @@ func (x *vC10Exec) op(t *testing.T, op string) string {
 		if len(f) > 1 && strings.HasPrefix(f[1], "mcu=") {
 			mcu, _ = strconv.Atoi(f[1][4:])
 		}
-		w, err := vC10NewWorld(t, mcu)
+		flags := ""
+		if len(f) > 2 && strings.HasPrefix(f[2], "by=") {
+			flags = f[2][3:]
+		}
+		w, err := vC10NewWorld(t, mcu, flags)
 		if err != nil {
 			return "fail:" + vEnc(err.Error())
 		}
@@ -1115,6 +1167,24 @@ func (x *vC10Exec) op(t *testing.T, op string) string {
 			return "fail:" + vEnc(err.Error())
 		}
 		return "ok"
+	case "by":
+		// the bystander's connection goes away (its session waits to be resumed) / comes back
+		if len(f) < 2 {
+			return "fail:bad-op"
+		}
+		if err := x.ensureWorld(t); err != nil {
+			return "fail:" + vEnc(err.Error())
+		}
+		switch f[1] {
+		case "drop":
+			if err := x.w.dropBystander(); err != nil {
+				return "fail:" + vEnc(err.Error())
+			}
+			return "ok"
+		case "resume":
+			return x.w.resumeBystander()
+		}
+		return "fail:bad-op"
 	case "race":
 		// two more clients of the bystander's room: one keeps changing transient data, the
 		// other keeps joining and leaving; afterwards everybody must still be served
@@ -1156,7 +1226,18 @@ func (x *vC10Exec) msg(f []string) string {
 			shape[t[:i]] = vDec(t[i+1:])
 		}
 	}
+	// the tables must be at rest before the frame is sent: the asynchronous tail of an earlier op (a
+	// session that is still being removed, on a loaded machine) is not an effect of this frame
 	before := w.digest()
+	for i := 0; i < 40; i++ {
+		time.Sleep(250 * time.Microsecond)
+		again := w.digest()
+		if again == before {
+			break
+		}
+		before = again
+	}
+	nExpect := w.expectHelloCount()
 	extra := ""
 	armed := false
 	if w.state == "dialout" && w.dialoutEligible() {
@@ -1173,6 +1254,13 @@ func (x *vC10Exec) msg(f []string) string {
 	wasFed := w.senderFederated()
 	w.snd.send(mt, []byte(doc)) // nolint
 	snd, by, ok := w.barrier()
+	if w.snd.dead && w.snd.pub == "" && w.snd.rem == nil {
+		// a connection without session that the server closed (size limit): the hub takes it off its list
+		// of connections that owe a hello when the read loop has ended
+		for deadline := time.Now().Add(2 * time.Second); w.expectHelloCount() >= nExpect && time.Now().Before(deadline); {
+			time.Sleep(200 * time.Microsecond)
+		}
+	}
 	if wasFed && ok && !w.senderFederated() {
 		// the federation client was detached (leave, local join, bye): what the target still
 		// answers arrives without a marker to wait for
@@ -1221,7 +1309,7 @@ func (x *vC10Exec) msg(f []string) string {
 		}
 	}
 	byDead := ""
-	if w.by.dead {
+	if w.by.dead && !w.byDetached {
 		byDead = "+dead"
 	}
 	return "s=" + vC10Join(snd) + " b=" + vC10Join(by) + byDead + " st=" + st + extra
